@@ -82,7 +82,7 @@ MonInit(p) ==
   [p |-> p,
    pend |-> <<>>,     \* presses not yet accounted for, in arrival order: [c, xr, ly, sk, age, hid]
                       \*   xr = keys released (input) since this press arrived; hid = chord that may have consumed it unseen
-   acts |-> <<>>,     \* chord actions currently held: [ci, rem, all, chk, due, tag, useen]
+   acts |-> <<>>,     \* chord actions currently held: [ci, rem, all, chk, due, tag, useen, frl]
    gst |-> "none",    \* sharp group: "none" | "open"
    g |-> <<>>,        \* its presses in arrival order
    el |-> 0,          \* ticks since its first press arrived
@@ -148,8 +148,10 @@ ExpOk(m, o, u) == m.exp = <<>> \/ (Head(m.exp).o = o /\ Head(m.exp).u = u)
 PopExp(m) == IF m.exp = <<>> THEN m ELSE [m EXCEPT !.exp = Tail(@), !.expLeft = 0 - 1]
 
 \* the press of key k an observed activation consumes: the oldest one that was not possibly consumed unseen
-PickIdx(pend, k) == LET i == FirstIdx(pend, LAMBDA e : e.c = k /\ e.hid = 0) IN
-                    IF i # 0 THEN i ELSE FirstIdx(pend, LAMBDA e : e.c = k)
+\* (nor possibly dropped with an earlier activation of a chord of the key: `dup`)
+PickIdx(pend, k) == LET i0 == FirstIdx(pend, LAMBDA e : e.c = k /\ e.hid = 0 /\ ~e.dup)
+                        i == FirstIdx(pend, LAMBDA e : e.c = k /\ e.hid = 0) IN
+                    IF i0 # 0 THEN i0 ELSE IF i # 0 THEN i ELSE FirstIdx(pend, LAMBDA e : e.c = k)
 
 ActivateChord(m, ci) ==
   LET p == m.p
@@ -184,7 +186,7 @@ ActivateChord(m, ci) ==
           IF ch.o = 0 THEN m1
           ELSE [m1 EXCEPT !.acts = Append(@, [ci |-> ci, rem |-> rem, all |-> S,
                                              chk |-> (p.ver = 2 \/ (fromExp /\ m.expDef)), due |-> 0, tag |-> FALSE,
-                                             useen |-> FALSE])]
+                                             useen |-> FALSE, frl |-> (m.pend[oldest].xr \ S) # {}])]
 
 \* a chord whose action is a key and a unicode character: the key shows how long the action is held, the character
 \* shows every performance (a second activation while the key is down does not press the key again)
@@ -209,17 +211,23 @@ UniOfKeyChord(m, ci) ==
      ELSE Fail(m, "C09 H1: chord action performed without a fresh press of each of its keys")
 
 Individual(m, kc, o) ==
-  LET i == PickIdx(m.pend, kc) IN
+  \* the layer delivers in arrival order: the oldest pending press of the key.  If that press was marked as possibly
+  \* consumed unseen (hid) or possibly dropped (dup), the doubt passes to the next press of the same key.
+  LET i == FirstIdx(m.pend, LAMBDA e : e.c = kc) IN
   IF i = 0
   THEN Fail(m, "C09 H1: individual output of a key without a fresh press (a participant of a fired chord, or delivered twice)")
   ELSE IF m.pend[i].sk
   THEN Fail(m, "C09 H4: keys delivered out of their original order")
   ELSE IF ~ExpOk(m, o, "")
   THEN Fail(m, "C09 H1/H2: wrong outcome for the pressed key set (individual key instead of the defined chord / sub-chord)")
-  ELSE LET before == SubSeq(m.pend, 1, i - 1) IN
-       \* (presses that a hidden re-activation may have consumed are left out of the order claim)
-       PopExp([m EXCEPT !.pend = [j \in DOMAIN before |-> IF before[j].hid = 0 THEN [before[j] EXCEPT !.sk = TRUE] ELSE before[j]]
-                                 \o SubSeq(m.pend, i + 1, Len(m.pend))])
+  ELSE LET before == SubSeq(m.pend, 1, i - 1)
+           after == SubSeq(m.pend, i + 1, Len(m.pend))
+           j == FirstIdx(after, LAMBDA e : e.c = kc)
+           after1 == IF j = 0 THEN after
+                     ELSE [after EXCEPT ![j].hid = IF @ = 0 THEN m.pend[i].hid ELSE @, ![j].dup = @ \/ m.pend[i].dup]
+       IN \* (presses that a hidden re-activation may have consumed are left out of the order claim)
+          PopExp([m EXCEPT !.pend = [k \in DOMAIN before |-> IF before[k].hid = 0 THEN [before[k] EXCEPT !.sk = TRUE] ELSE before[k]]
+                                    \o after1])
 
 ReleaseChord(m, ci) ==
   LET j == FirstIdx(m.acts, LAMBDA a : a.ci = ci) IN
@@ -229,7 +237,9 @@ ReleaseChord(m, ci) ==
        IN IF a.chk /\ ~first /\ a.rem # {}
           THEN Fail(m, "C09 H3: chord action released while a participant is still held")
           ELSE IF a.chk /\ first /\ a.rem = a.all
-          THEN Fail(m, "C09 H3: first-release chord action released before any participant was released")
+          THEN IF a.frl
+               THEN Fail(m, "C09 H3: first-release chord action released before any participant was released [a key outside the chord was released while the chord's presses were pending]")
+               ELSE Fail(m, "C09 H3: first-release chord action released before any participant was released")
           ELSE [m EXCEPT !.acts = DropAt(@, j)]
 
 RECURSIVE Scan(_, _)
@@ -293,6 +303,12 @@ MonTick(m, out, idle, cb) ==
                       /\ ~\E i \in DOMAIN m3.pend : m3.pend[i].hid = a.ci
         acts1 == [i \in DOMAIN m3.acts |-> [m3.acts[i] EXCEPT !.due = IF relCond(m3.acts[i]) THEN OMin(@ + 1, p.slack + 1) ELSE 0]]
         stuck == {i \in DOMAIN acts1 : acts1[i].due > p.slack}
+        \* presses left when kanata has settled, per key: every `hid` mark excuses one press of the key silently (a chord
+        \* re-activation under a held output key is invisible), every `dup` mark names the known site of a dropped press
+        cnt(k) == Cardinality({i \in DOMAIN m3.pend : m3.pend[i].c = k})
+        hidc(k) == Cardinality({i \in DOMAIN m3.pend : m3.pend[i].c = k /\ m3.pend[i].hid # 0})
+        dupc(k) == Cardinality({i \in DOMAIN m3.pend : m3.pend[i].c = k /\ m3.pend[i].dup})
+        left == {k \in {m3.pend[i].c : i \in DOMAIN m3.pend} : IndOut(p, k) # 0 /\ cnt(k) > hidc(k)}
         m4 == IF m3.err # "" THEN m3
               ELSE IF m3.expLeft = 0
               THEN Fail(m3, "C09 H1: the action for the pressed key set was not performed on the tick its window closed")
@@ -300,8 +316,8 @@ MonTick(m, out, idle, cb) ==
               THEN IF \E i \in stuck : acts1[i].tag
                    THEN Fail(m3, "C09 H3: chord action still held after all its participants were released [released shortly after another key press: chords-v2-min-idle]")
                    ELSE Fail(m3, "C09 H3: chord action still held after its release condition")
-              ELSE IF settledNow /\ \E i \in DOMAIN m3.pend : IndOut(p, m3.pend[i].c) # 0 /\ m3.pend[i].hid = 0
-              THEN IF \A i \in DOMAIN m3.pend : (IndOut(p, m3.pend[i].c) # 0 /\ m3.pend[i].hid = 0) => m3.pend[i].dup
+              ELSE IF settledNow /\ left # {}
+              THEN IF \A k \in left : cnt(k) - hidc(k) <= dupc(k)
                    THEN Fail(m3, "C09 H4: a pressed key was swallowed [a further press of a chord key, queued when the chord fired, was dropped with the consumed presses]")
                    ELSE Fail(m3, "C09 H4: a pressed key was swallowed (neither a chord nor its own action accounts for it)")
               ELSE [m3 EXCEPT !.acts = acts1,
